@@ -126,6 +126,8 @@ type ContractFile struct {
 }
 
 var kwRe = regexp.MustCompile(`^(func|props|mode|requires|ghostinit|ensures_thorough|ensures|safe|pure|bounded|privatecaptures|privateparam|abstractfloatdiv|assumecalleerequires|modifies|preserves|assumed|lemma|nonnil|loop|invariant|unroll|decreases|site|assert|assume|hint|ghostset|ghostdecl|spec|note|end)\b`)
+// every element of a ghost sequence starts at a constant: forallkey(s, T, ghostat(obj, f(s), "name") == c)
+var ghostInitAllRe = regexp.MustCompile(`^forallkey\(\w+,\s*[\w.]+,\s*ghostat\(.*,\s*"[A-Za-z0-9_]+"\)\s*==\s*-?[0-9]+\)$`)
 var ghostInitRe = regexp.MustCompile(`^ghost\([A-Za-z0-9_.]+,\s*"[A-Za-z0-9_]+"\)\s*==\s*-?[0-9]+$`)
 var ghostNameRe = regexp.MustCompile(`ghost(?:at)?\((?:[^"]*)"([A-Za-z0-9_]+)"\)`)
 var labelRe = regexp.MustCompile(`^\[([A-Za-z0-9_.\-]+)\]\s*`)
@@ -251,8 +253,8 @@ func ParseContractFile(path, pkgPath string) (*ContractFile, error) {
 				return nil, err
 			}
 			for _, conj := range strings.Split(c.Text, "&&") {
-				if !ghostInitRe.MatchString(strings.TrimSpace(conj)) {
-					return nil, fmt.Errorf("%s:%d: ghostinit must be a conjunction of ghost(k,\"name\") == constant", path, rl.line)
+				if !ghostInitRe.MatchString(strings.TrimSpace(conj)) && !ghostInitAllRe.MatchString(strings.TrimSpace(conj)) {
+					return nil, fmt.Errorf("%s:%d: ghostinit must be a conjunction of ghost(k,\"name\") == constant or forallkey(s, T, ghostat(o, f(s), \"name\") == constant)", path, rl.line)
 				}
 			}
 			cur.GhostInit = append(cur.GhostInit, c)
